@@ -303,7 +303,9 @@ def decide(prop, tier, seed):
                 ok = (out is None and err != 'timeout') or bool(out and out.get('violates'))
                 v['known_replay'] = out
             if ok:
-                printed.append('KNOWN-FINDING: property=%s %s' % (prop, k['what']))
+                line = 'KNOWN-FINDING: property=%s %s' % (prop, k['what'])
+                if line not in printed:
+                    printed.append(line)
                 v['known'] = k['id']
                 continue
             # the obligation still fails but the recorded witness no longer misbehaves: the defect
